@@ -43,6 +43,7 @@ type root struct {
 	notes      map[string]bool
 	lateGhost  map[string]bool
 	localAddrs []*Term
+	knownRanges [][2]*Term // typed slices seen so far (backing array start, bytes): memory that exists before later allocations
 	localSizes []int64
 	watch      []leaf
 	e        *Engine
